@@ -272,6 +272,7 @@ fn shared_rules(c: &SharedCase) -> (Vec<String>, Vec<(Kind, Vec<String>, String)
             let id = format!("{}{:04}", letter, n);
             let pat = if g.regexy { format!("/{}/{}/*{}", a, b, id) } else { format!("/{}/{}/{}", a, b, id) };
             let url = if g.regexy { format!("https://h.example.com/{}/{}/zz/{}", a, b, id) } else { format!("https://h.example.com/{}/{}/{}", a, b, id) };
+            // tag "-" = an untagged rule (always active); tag "" = the legal empty spelling `tag=`
             let mut tags = vec![g.tag.clone()];
             if let Some(t2) = &g.twin {
                 if *t2 != g.tag {
@@ -284,10 +285,17 @@ fn shared_rules(c: &SharedCase) -> (Vec<String>, Vec<(Kind, Vec<String>, String)
                 _ => {}
             }
             for tg in &tags {
+                let topt = if tg == "-" { String::new() } else { format!("tag={}", tg) };
+                let join = |pre: &str, o: &str| match (pre.is_empty(), o.is_empty()) {
+                    (true, true) => String::new(),
+                    (true, false) => format!("${}", o),
+                    (false, true) => format!("${}", pre),
+                    (false, false) => format!("${},{}", pre, o),
+                };
                 match g.kind {
-                    Kind::Block => ls.push(format!("{}$tag={}", pat, tg)),
-                    Kind::Exception => ls.push(format!("@@{}$tag={}", pat, tg)),
-                    _ => ls.push(format!("{}$important,tag={}", pat, tg)),
+                    Kind::Block => ls.push(format!("{}{}", pat, join("", &topt))),
+                    Kind::Exception => ls.push(format!("@@{}{}", pat, join("", &topt))),
+                    _ => ls.push(format!("{}{}", pat, join("important", &topt))),
                 }
             }
             probes.push((g.kind.clone(), tags, url));
@@ -309,7 +317,7 @@ pub fn check_shared(c: &SharedCase, obs: &mut Obs) -> Result<(), String> {
     run_history(&ls, &c.ops, c.optimize, &tags, obs, &mut |e, set, step, obs| {
         for (i, (kind, tag, url)) in probes.iter().enumerate() {
             obs.inner_evals += 1;
-            let active = tag.iter().any(|t| set.contains(t));
+            let active = tag.iter().any(|t| t == "-" || set.contains(t));
             let req = adblock::request::Request::new(url, "https://other.org/", "script").unwrap();
             let b = e.check_network_request(&req);
             let ok = match kind {
@@ -353,7 +361,13 @@ pub fn decode_shared(t: &mut Tape) -> SharedCase {
         let size = if big { [2usize, 63, 64, 65, 65, 66, 129][t.pick(7)] } else { 1 + t.pick(3) };
         let toks = if big { big_toks } else { (t.pick(ntok) as u8, t.pick(ntok) as u8) };
         let twin = if !big && t.chance(1, 3) { Some(t.choose(&POOL[..4]).to_string()) } else { None };
-        groups.push(Group { kind, tag: t.choose(&POOL[..3]).to_string(), size, toks, regexy: if big { false } else { t.chance(1, 2) }, twin });
+        // 1 group in 6 is untagged ("-"), 1 in 6 carries the empty tag
+        let tag = match t.pick(6) {
+            0 => "-".to_string(),
+            1 => String::new(),
+            _ => t.choose(&POOL[..3]).to_string(),
+        };
+        groups.push(Group { kind, tag, size, toks, regexy: if big { false } else { t.chance(1, 2) }, twin });
     }
     let m = 1 + t.pick(8);
     let mut ops = vec![];
@@ -372,7 +386,11 @@ fn tagset(t: &mut Tape) -> Vec<String> {
     let n = t.pick(4);
     let mut v = vec![];
     for _ in 0..n {
-        v.push(if t.chance(1, 10) { "unknown".to_string() } else { t.choose(POOL).to_string() });
+        v.push(match t.pick(12) {
+            0 => "unknown".to_string(),
+            1 => String::new(), // the empty tag can be enabled like any other
+            _ => t.choose(POOL).to_string(),
+        });
     }
     v
 }
@@ -403,7 +421,7 @@ pub fn decode(t: &mut Tape) -> TagCase {
 }
 
 pub fn check(ctx: &mut Ctx) {
-    ctx.rule = "1-6 tagged rules, each of kind blocking / exception (with an untagged blocker behind it) / important (with an untagged exception it must beat) / csp, 4 pattern shapes, tags from a pool of 5, optimisation on/off; history of 1-8 use/enable/disable (duplicates, unknown tags, empty sets) and reload ops (bytes serialized by a sibling engine holding a different enabled set). After every op each rule's private probe request and tag_exists over the pool (+ \"\" and an unknown tag) are compared with a set model. shared: 2-7 groups of tagged blocking / exception / important rules whose patterns share tokens from a pool of 2-4 (plain or '*' patterns, the per-rule suffix is never a token; 1 group in 3 doubles every rule with a same-pattern twin under another tag, so a probe is active when either tag is enabled), so bucket membership and optimiser fusion depend on the enabled set; 1 in 30 cases uses 2-3 groups of 2/63/64/65/66/129 rules in one bucket; same histories and set model. Non-trivial = at least two set-changing ops and a rule whose activity flips.".into();
+    ctx.rule = "1-6 tagged rules, each of kind blocking / exception (with an untagged blocker behind it) / important (with an untagged exception it must beat) / csp, 4 pattern shapes, tags from a pool of 5, optimisation on/off; history of 1-8 use/enable/disable (duplicates, unknown tags, empty sets) and reload ops (bytes serialized by a sibling engine holding a different enabled set). After every op each rule's private probe request and tag_exists over the pool (+ \"\" and an unknown tag) are compared with a set model. shared: 2-7 groups of tagged blocking / exception / important rules whose patterns share tokens from a pool of 2-4 (plain or '*' patterns, the per-rule suffix is never a token; 1 group in 3 doubles every rule with a same-pattern twin under another tag, so a probe is active when either tag is enabled; 1 group in 6 is untagged and 1 in 6 carries the empty tag `tag=`, which op sets may enable), so bucket membership and optimiser fusion depend on the enabled set; 1 in 30 cases uses 2-3 groups of 2/63/64/65/66/129 rules in one bucket; same histories and set model. Non-trivial = at least two set-changing ops and a rule whose activity flips.".into();
     ctx.assumptions = vec!["tag+redirect, tag+removeparam and tag+generichide are documented as unsupported and are not generated".into()];
     let n = ctx.tier.pick(120_000, 2_000_000);
     drive(ctx, "history", n, 200, &decode, &check_case);
